@@ -334,6 +334,11 @@ func (g *G) Ethernet(maxLen int) Pkt {
 				break
 			}
 		}
+		if hdr == 18 && g.Chance("qinq_as_payload", 1, 6) {
+			// a second 802.1Q tag behind the first: the library models one tag, the rest is opaque payload
+			et = protocol.VLAN_MSG
+			g.Label("inner_ethertype_8100")
+		}
 		b, pw := g.other("l3_other", room)
 		e.Data, payload, p.L3 = b, pw, "other"
 		g.Label("l3_other")
